@@ -720,6 +720,8 @@ def rejectCheck (op : String) (a : List String) (impl : String) : Option (Bool Ã
     -- FitClearanceAroundExtendedSpatialID: a malformed ID or a negative clearance is an error; otherwise two layer counts â‰¥ 0
     if !extOk id || neg == "1" then need true "ACCEPT"
     else if neg == "2" && impl != "ERR" && impl != "0:0" then some (false, "FIT clearance 0 must give 0 layers")
+    else if neg == "2" && impl != "0:0" && (match parseExt id with | some e => decide e.valid | none => false) then
+      some (false, "FIT clearance 0 on a valid ID must give 0:0 at every zoom")
     else if impl == "ERR" || impl == "TIMEOUT" then none
     else (match (impl.splitOn ":").map String.toInt? with
       | [some hl, some vl] => if hl < 0 || vl < 0 then some (false, "FIT negative layer count") else none
